@@ -123,68 +123,68 @@ package go_clipper2
 // ---------------------------------------------------------------------------------
 
 //@ func clipper64.Execute
-//@   props C12
+//@   props C12 C17
 //@   requires c.clipperBase != nil
 //@   ensures [idle] idle(c.clipperBase)
 //@   replaces solution
 //@   initfields clipperBase.succeeded clipperBase.fillRule clipperBase.clipType clipperBase.currentBotY clipperBase.currentLocMin clipperBase.sel clipperBase.usingPolyTree
 
 //@ func clipper64.ExecuteOC
-//@   props C12
+//@   props C12 C17
 //@   requires c.clipperBase != nil
 //@   ensures [idle] idle(c.clipperBase)
 //@   replaces solutionClosed solutionOpen
 //@   initfields clipperBase.succeeded clipperBase.fillRule clipperBase.clipType clipperBase.currentBotY clipperBase.currentLocMin clipperBase.sel clipperBase.usingPolyTree
 
 //@ func clipper64.ExecutePolyTree64
-//@   props C12
+//@   props C12 C17
 //@   requires c.clipperBase != nil && polytree != nil && polytree.PolyPathBase != nil
 //@   ensures [idle] idle(c.clipperBase)
 //@   replaces polytree openPaths
 //@   initfields clipperBase.succeeded clipperBase.fillRule clipperBase.clipType clipperBase.currentBotY clipperBase.currentLocMin clipperBase.sel clipperBase.usingPolyTree
 
 //@ func clipperD.Execute
-//@   props C12
+//@   props C12 C17
 //@   requires c.clipperBase != nil
 //@   ensures [idle] idle(c.clipperBase)
 //@   replaces solution
 //@   initfields clipperBase.succeeded clipperBase.fillRule clipperBase.clipType clipperBase.currentBotY clipperBase.currentLocMin clipperBase.sel clipperBase.usingPolyTree
 
 //@ func clipperD.ExecuteOC
-//@   props C12
+//@   props C12 C17
 //@   requires c.clipperBase != nil
 //@   ensures [idle] idle(c.clipperBase)
 //@   replaces solutionClosed solutionOpen
 //@   initfields clipperBase.succeeded clipperBase.fillRule clipperBase.clipType clipperBase.currentBotY clipperBase.currentLocMin clipperBase.sel clipperBase.usingPolyTree
 
 //@ func clipperD.ExecuteWithScaleFunc
-//@   props C12
+//@   props C12 C17
 //@   requires c.clipperBase != nil
 //@   ensures [idle] idle(c.clipperBase)
 //@   replaces solutionClosed solutionOpen
 //@   initfields clipperBase.succeeded clipperBase.fillRule clipperBase.clipType clipperBase.currentBotY clipperBase.currentLocMin clipperBase.sel clipperBase.usingPolyTree
 
 //@ func clipperD.ExecutePolyTreeD
-//@   props C12
+//@   props C12 C17
 //@   requires c.clipperBase != nil && polytree != nil && polytree.PolyPathBase != nil
 //@   ensures [idle] idle(c.clipperBase)
 //@   replaces polytree openPaths
 //@   initfields clipperBase.succeeded clipperBase.fillRule clipperBase.clipType clipperBase.currentBotY clipperBase.currentLocMin clipperBase.sel clipperBase.usingPolyTree
 
 //@ func ClipperOffset.Execute64
-//@   props C12
+//@   props C12 C17
 //@   frameonly
 //@   replaces solution
 
 //@ spec idle(c *clipperBase) bool = c.actives == nil && len(c.scanlineList) == 0 && len(c.intersectList) == 0 && len(c.outrecList) == 0 && len(c.horzSegList) == 0 && len(c.horzJoinList) == 0
 
 //@ func clipperBase.clearSolutionOnly
-//@   props C12
+//@   props C12 C17
 //@   ensures [idle] idle(c)
 //@   ensures [keeps-input] same(c.minimaList, old(c.minimaList)) && same(c.vertexList, old(c.vertexList))
 
 //@ func clipperBase.reset
-//@   props C12
+//@   props C12 C17
 //@   requires len(c.scanlineList) == 0
 //@   requires forall(k, 0, len(c.minimaList), c.minimaList[k] != nil && c.minimaList[k].Vertex != nil)
 //@   loop 0 invariant [len] -1 <= i && i < len(c.minimaList) && len(c.scanlineList) == len(c.minimaList) - 1 - i
@@ -194,16 +194,16 @@ package go_clipper2
 //@   ensures [scanlines] len(c.scanlineList) == len(c.minimaList)
 
 //@ func clipperBase.execute
-//@   props C12
+//@   props C12 C17
 //@   ensures [idle] idle(c)
 
 //@ func newClipperBase
-//@   props C12
+//@   props C12 C17
 //@   ensures [idle] result != nil && idle(result)
 //@   ensures [fresh-flags] !result.usingPolyTree && !result.hasOpenPaths && !result.isSortedMinimaList && len(result.minimaList) == 0 && len(result.vertexList) == 0
 
 //@ func NewClipper64
-//@   props C12
+//@   props C12 C17
 //@   ensures [wired] result != nil && result.clipperBase != nil && idle(result.clipperBase)
 
 // ---------------------------------------------------------------------------------
@@ -605,6 +605,30 @@ package go_clipper2
 //@   assert after e2WindCountIs0or1 [transfer-same-type-evenodd] (ae1.localMin.PolyType == ae2.localMin.PolyType && c.fillRule == EvenOdd) ==> (ae1.windCount == old(ae2.windCount) && ae2.windCount == old(ae1.windCount) && ae1.windCount2 == old(ae1.windCount2) && ae2.windCount2 == old(ae2.windCount2))
 //@   assert after e2WindCountIs0or1 [transfer-other-type] (ae1.localMin.PolyType != ae2.localMin.PolyType && c.fillRule != EvenOdd) ==> (ae1.windCount2 == old(ae1.windCount2) + ae2.windDx && ae2.windCount2 == old(ae2.windCount2) - ae1.windDx && ae1.windCount == old(ae1.windCount) && ae2.windCount == old(ae2.windCount))
 //@   assert after e2WindCountIs0or1 [transfer-other-type-evenodd] (ae1.localMin.PolyType != ae2.localMin.PolyType && c.fillRule == EvenOdd && (old(ae1.windCount2) == 0 || old(ae1.windCount2) == 1) && (old(ae2.windCount2) == 0 || old(ae2.windCount2) == 1)) ==> (ae1.windCount2 == 1 - old(ae1.windCount2) && ae2.windCount2 == 1 - old(ae2.windCount2) && ae1.windCount == old(ae1.windCount) && ae2.windCount == old(ae2.windCount))
+
+// an open edge that leaves the clip region is detached from its output path on both sides:
+// a finished path must not keep a pointer to an edge that is still in the active list (C09)
+//@ func clipperBase.intersectEdges variant openexit
+//@   props C09
+//@   nosafety
+//@   requires ae1 != nil && ae2 != nil && ae1 != ae2 && ae1.localMin != nil && ae2.localMin != nil && ae1.localMin.Vertex != nil
+//@   requires c.hasOpenPaths && ae1.localMin.IsOpen && !ae2.localMin.IsOpen && ae2.joinWith == JoinNone
+//@   requires ae1.outrec != nil && !(ae1.outrec.frontEdge == ae1 && ae1.outrec.backEdge == ae1)
+//@   ensures [exit-detaches-edge-from-its-path] ae1.outrec == nil ==> (old(ae1.outrec).frontEdge != ae1 && old(ae1.outrec).backEdge != ae1)
+//@   ensures [still-hot-or-detached] ae1.outrec == nil || ae1.outrec == old(ae1.outrec)
+
+// topX depends on the scanline only through its distance from the edge's bottom (translation
+// invariance, C13): checked with rounded float arithmetic, so that forms that are equal over
+// the reals but not in float64 (e.g. dx*cy - dx*by) are told apart
+//@ func topX
+//@   props C13 C01
+//@   floats rounded
+//@   requires ae != nil
+//@   assumes absI(currentY) <= pow2(52) && absI(ae.bot.Y) <= pow2(52) && absI(ae.bot.X) <= pow2(52) && absI(ae.top.X) <= pow2(52)
+//@   assumes absI(ae.dx * toReal(currentY - ae.bot.Y)) <= toReal(pow2(54))
+//@   ensures [ends] (currentY == ae.top.Y || ae.top.X == ae.bot.X) ==> result == ae.top.X
+//@   ensures [bottom] (currentY != ae.top.Y && ae.top.X != ae.bot.X && currentY == ae.bot.Y) ==> result == ae.bot.X
+//@   ensures [depends-on-height-above-bottom-only] (currentY != ae.top.Y && ae.top.X != ae.bot.X && currentY != ae.bot.Y) ==> absI(toReal(result - ae.bot.X) - ae.dx * toReal(currentY - ae.bot.Y)) <= 0.5 + absI(ae.dx * toReal(currentY - ae.bot.Y)) / toReal(pow2(51))
 
 // open-path edges: the winding numbers an open edge starts with count exactly the closed
 // edges to its left (open subject edges contribute nothing)
@@ -1040,8 +1064,10 @@ package go_clipper2
 
 //@ func getDx
 //@   props C01 C13
+//@   floats rounded
 //@   requires dom(pt1,61) && dom(pt2,61)
-//@   ensures [slope] pt2.Y != pt1.Y ==> result * toReal(pt2.Y-pt1.Y) == toReal(pt2.X-pt1.X) || absI(pt2.X-pt1.X) > pow2(53) || absI(pt2.Y-pt1.Y) > pow2(53)
+//@   ensures [slope] pt2.Y != pt1.Y ==> absI(result * toReal(pt2.Y-pt1.Y) - toReal(pt2.X-pt1.X)) <= absI(toReal(pt2.X-pt1.X)) / toReal(pow2(53)) || absI(pt2.X-pt1.X) > pow2(53) || absI(pt2.Y-pt1.Y) > pow2(53)
+//@   ensures [slope-sign] (pt2.Y > pt1.Y && pt2.X > pt1.X && absI(pt2.X-pt1.X) <= pow2(53) && absI(pt2.Y-pt1.Y) <= pow2(53)) ==> result > 0
 //@   ensures [horizontal] pt2.Y == pt1.Y ==> (result == ite(pt2.X > pt1.X, negInf, posInf))
 
 //@ func checkCastInt64
@@ -1349,6 +1375,8 @@ package go_clipper2
 //@   props C02 C17 C04
 //@   nosafety
 //@   loop 0 step [split-rings-own-their-entry-points] (!c.usingPolyTree && or2.pts != nil && or2.owner == or1 && or1 != or2 && old(or1.pts != nil && or1.pts.outrec == or1 && j.op1.next != j.op1 && j.op1 != nil) && old(len(c.outrecList)) < len(c.outrecList)) ==> (or1.pts.outrec == or1 && or2.pts.outrec == or2)
+//@   loop 0 step [tree-split-ring-gets-an-owner] (c.usingPolyTree && old(len(c.outrecList)) < len(c.outrecList)) ==> (or2 != or1 && (or2.owner == or1 || or2.owner == or1.owner))
+//@   loop 0 step [flat-joined-ring-owned-by-first] !c.usingPolyTree ==> or2.owner == or1
 
 // ---------------------------------------------------------------------------------
 // Output-ring and active-edge-list surgery (C02, C03, C09): loop-free heap functions
